@@ -200,8 +200,8 @@ func (e *Exec) convert(fr *frame, st *State, x Val, from, to types.Type, pos tok
 	case fs == sF && ts == sF:
 		return x
 	case fs == sInt && ts == sStr:
-		e.ctx.declareFun("rune2str", []string{sInt}, sStr)
-		r := app("rune2str", x.T)
+		e.ctx.declareFun("spec$runeString", []string{sInt}, sStr)
+		r := app("spec$runeString", x.T)
 		e.ctx.assume(imp(st.pc, and(le("1", app("slen", r)), le(app("slen", r), "4"),
 			imp(and(le("0", x.T), lt(x.T, "128")), and(eq(app("slen", r), "1"), eq(app("sat", r, "0"), x.T))))))
 		e.trust("string(rune) has 1..4 bytes; ASCII runes give the single byte")
